@@ -29,6 +29,7 @@ import (
 
 	errorsmod "cosmossdk.io/errors"
 	"cosmossdk.io/log"
+	storetypes "cosmossdk.io/store/types"
 	sdkerrors "github.com/cosmos/cosmos-sdk/types/errors"
 
 	"github.com/noble-assets/orbiter/v2/controller"
@@ -205,7 +206,7 @@ func (c *HyperlaneController) executeForwarding(
 		hookAddrPtr = &h
 	}
 
-	_, err := c.handler.RemoteTransfer(ctx, &warptypes.MsgRemoteTransfer{
+	err := c.remoteTransfer(ctx, &warptypes.MsgRemoteTransfer{
 		Sender:             core.ModuleAddress.String(),
 		TokenId:            hyperlaneutil.HexAddress(hypAttr.GetTokenId()),
 		DestinationDomain:  hypAttr.DestinationDomain,
@@ -221,4 +222,26 @@ func (c *HyperlaneController) executeForwarding(
 	}
 
 	return nil
+}
+
+// remoteTransfer calls the Warp server and returns an error, instead of panicking, when the
+// Hyperlane modules panic on the values of the request (e.g. an integer overflow while a post
+// dispatch hook quotes its fee for a huge gas limit).
+func (c *HyperlaneController) remoteTransfer(
+	ctx context.Context,
+	msg *warptypes.MsgRemoteTransfer,
+) (err error) {
+	defer func() {
+		if r := recover(); r != nil {
+			switch r.(type) {
+			case storetypes.ErrorOutOfGas, storetypes.ErrorGasOverflow:
+				panic(r)
+			}
+			err = fmt.Errorf("hyperlane remote transfer panicked: %v", r)
+		}
+	}()
+
+	_, err = c.handler.RemoteTransfer(ctx, msg)
+
+	return err
 }
